@@ -107,10 +107,22 @@ def names_of(case):
         fparams = case.get("fparams", params)
         env = dict((k, v) for k, v in env.items() if k in fparams)
         env.update(case.get("extra_kwargs", {}))
+    # what a name in the condition means is decided by PYTHON's scoping: the condition's own parameters, then its closure,
+    # then the globals of its module.  A parameter of the decorated function which the condition does not take is no
+    # variable of the condition: it only gets a line of its own in the message (`kwargs` of the model input).
     names = dict(GLOB)
     names.update(case.get("_closure", CLOSURE))
-    names.update(env)
+    names.update(cond_env(case, env))
     return env, names
+
+
+def cond_env(case, env):
+    if case.get("kind") == "invariant":
+        return env
+    params = case.get("params", ARGS)
+    if any(p.startswith("*") for p in params):
+        return env
+    return dict((k, v) for k, v in env.items() if k in params)
 
 
 class _Plain:
@@ -128,7 +140,7 @@ def lean_input(case):
     if case.get("kind", "require") == "require" and not case.get("named") and "_ARGS" not in params and "_KWARGS" not in params and "tick(" not in case["expr"] \
             and not any(isinstance(v, str) and v.isupper() for v in case["env"].values()):
         env, names = names_of(case)
-        out = exprtie.to_lean(case["expr"], names, objs, lookups=[env, dict(CLOSURE), dict(GLOB)])
+        out = exprtie.to_lean(case["expr"], names, objs, lookups=[cond_env(case, env), dict(CLOSURE), dict(GLOB)])
         if out is not None:
             kw = []
             for k in sorted(env.keys()):
@@ -390,6 +402,26 @@ def inner_positions(expr):
 
 # ---------------------------------------------------------------- oracles
 
+def hidden_argument_line(case, io, k):
+    """An argument `k` of the call which the condition does not take, while the condition's text uses a closure / global
+    variable of that name: the line `k was ...` belongs to that variable; returns the renderings it may show
+    (Python's scoping: closure, then globals), or None when `k` is no such argument."""
+    params = case.get("params", ARGS)
+    if case.get("kind") == "invariant" or k in params or any(p.startswith("*") for p in params):
+        return None
+    if k not in io["args_rendered"] or k not in used_names(case["expr"]):
+        return None
+    _env, names = names_of(case)
+    if k not in names:
+        return None
+    own = [e["rendered"] for e in io["evaluated"] if e["kind"] == "Name" and e["text"] == k]
+    try:
+        own.append(implexpr._noaddr(a_repr_of(case).repr(names[k])))
+    except BaseException:  # noqa: B902
+        pass
+    return own
+
+
 def used_names(expr):
     return set(n.id for n in ast.walk(implexpr.parse_expr(expr)) if isinstance(n, ast.Name) and isinstance(n.ctx, ast.Load))
 
@@ -574,7 +606,7 @@ def check_values(case, io, mos=None):
         elif key.strip() in walrus and walrus[key.strip()] == val:
             continue            # the target of an evaluated assignment expression, with the value Python bound
         elif is_arg:
-            if io["args_rendered"].get(key.strip()) != val:
+            if io["args_rendered"].get(key.strip()) != val and val not in (hidden_argument_line(case, io, key.strip()) or []):
                 fails.append("argument %s was shown as %s, its configured repr is %s" % (key, val, io["args_rendered"].get(key.strip())))
         elif d in nodes_by_dump:
             if any(nd["in_comp"] for nd in nodes_by_dump[d]):
@@ -602,6 +634,14 @@ def check_values(case, io, mos=None):
         if r is None:
             continue
         if shown.get(norm(k)) != r:
+            # one line per expression text: an argument which the condition does not take, named like a closure / global
+            # variable the condition READS, cannot have a line of its own - the line of that name belongs to the condition's
+            # variable and has to show the value Python used (known finding: the argument is not listed)
+            own = hidden_argument_line(case, io, k)
+            if own and shown.get(norm(k)) in own:
+                fails.append("[argument-hidden-by-same-named-variable] argument %s (repr %s) has no line: the condition reads a closure / "
+                             "global variable of that name, shown as %s" % (k, r, shown[norm(k)]))
+                continue
             fails.append("argument %s (repr %s) is %s" % (k, r, "missing" if norm(k) not in shown else "shown as " + shown[norm(k)]))
     # completeness
     if not any(names.get(n, 0) is None for n in used_names(case["expr"])):
@@ -620,6 +660,14 @@ def check_values(case, io, mos=None):
                 fails.append("%s%s (evaluated by Python to %s) has no line" % (code, e["text"], e["rendered"]))
             elif got != e["rendered"] and not (got.startswith("False, e.g., with") and e["rendered"] == "False"):
                 if got not in [x["rendered"] for x in ev_by_dump[e["dump"]]]:
+                    if e["in_fstring"] and e["kind"] == "Name" and hidden_argument_line(case, io, e["text"]) and \
+                            got == io["args_rendered"].get(e["text"]) and \
+                            all(x["in_fstring"] for x in ev_by_dump[e["dump"]]):
+                        # the variable is read inside f-strings only (whose internals get no lines): the line of that name
+                        # is the line of the ARGUMENT of the call, with the argument's value
+                        fails.append("[fstring-internals-not-listed] %s (evaluated by Python to %s inside an f-string) has no line; "
+                                     "the line of that name shows the argument of the call" % (e["text"], e["rendered"]))
+                        continue
                     fails.append("%s shown as %s, evaluated to %s" % (e["text"], got, e["rendered"]))
     return fails
 
@@ -683,7 +731,12 @@ def check_determinism(case, io, mos=None):
         fails.append("the value lines are not sorted by expression text: %s" % keys)
     params = case.get("params", ARGS)
     for k, v in io["entries"]:
-        if k in io["args_rendered"]:
+        own = hidden_argument_line(case, io, k)
+        if own:
+            # the line belongs to the condition's own (closure / global) variable of that name
+            if v not in own:
+                fails.append("%s is shown as %r, the contract's a_repr gives %r for the variable the condition read" % (k, v[:80], (own[0] or "")[:80]))
+        elif k in io["args_rendered"]:
             want = io["args_rendered"][k]
             if want is None:
                 fails.append("%s (a class / function / method / module / builtin) is shown" % k)
@@ -723,7 +776,7 @@ def classify(case, mos, io, fails):
             codes.add(f[1:f.index("] ")])
         else:
             return "unclassified"
-    return "+".join(sorted(codes)) if len(codes) == 1 else "unclassified"
+    return "+".join(sorted(codes)) if codes else "unclassified"
 
 
 def run_hashseed(case):
